@@ -99,6 +99,7 @@ PROPERTIES = {
         "jobs": [J("C12_geometry", quick={"cases": 600, "shards": 16, "max_size": 60}, thorough={"cases": 20000, "shards": 16, "max_size": 100})],
     },
     "C11": {
+        "claims_termination": True,  # a case that exceeds the per-case time limit is a violation ("always returns", "bounded retries")
         "rule": "rapidcheck: closed mesh with generated momenta and face labels; edge-length band placed relative to the mesh's edge "
                 "length distribution in five classes (all edges inside, only too long, too short, both, heavy); 1-4 passes with swap on/off "
                 "and displacements (noise, stretch, strong compression producing slivers) between passes. The refiner's operation trace "
@@ -207,6 +208,7 @@ PROPERTIES = {
         "jobs": [J("C09_division", quick={"cases": 40, "shards": 16, "max_size": 40}, thorough={"cases": 2500, "shards": 16, "max_size": 60})],
     },
     "C13": {
+        "claims_termination": True,  # a case that exceeds the per-case time limit is a violation ("always returns", "bounded retries")
         "rule": "rapidcheck, three subs. 'reconstruct': closed polyhedra with polygonal faces (box, n-prism, bipyramid, icosphere, ellipsoid, "
                 "non-convex L-prism, triangulated variants), per-face winding none / some / all reversed, rigid placement and um..x250 scale, "
                 "l_min / diameter in [0.04, 0.16], triangulation on (4/5) or off, written to an input file and loaded through "
